@@ -132,9 +132,9 @@ fn check_roundtrip(out: &mut CaseOut, v: (u8, u8, u8)) {
 
 fn check_cmp(out: &mut CaseOut, v: (u8, u8), t: (u8, u8), patch: u8) {
 	out.evals += 1;
-	let ver = slippi::Version(v.0, v.1, patch);
+	let ver = std::hint::black_box(slippi::Version(v.0, v.1, patch));
 	let want = v >= t;
-	let (g, l) = (ver.gte(t.0, t.1), ver.lt(t.0, t.1));
+	let (g, l) = (ver.gte(std::hint::black_box(t.0), std::hint::black_box(t.1)), ver.lt(std::hint::black_box(t.0), std::hint::black_box(t.1)));
 	if g != want || l == g {
 		out.violate("gte-lt", format!("Version({},{},{}).gte({},{}) = {}, lt = {}; lexicographic >= is {}", v.0, v.1, patch, t.0, t.1, g, l, want), None);
 	}
@@ -185,9 +185,11 @@ impl Monitor for C20 {
 					for minor in 0..=255u8 {
 						for a in 0..=255u8 {
 							for b in 0..=255u8 {
-								let ver = slippi::Version(major, minor, a ^ b);
+								// black_box: the calls must really be executed, not proved away by the optimiser
+								let ver = std::hint::black_box(slippi::Version(major, minor, a ^ b));
+								let (ta, tb) = (std::hint::black_box(a), std::hint::black_box(b));
 								let want = (major, minor) >= (a, b);
-								let (g, l) = (ver.gte(a, b), ver.lt(a, b));
+								let (g, l) = (ver.gte(ta, tb), ver.lt(ta, tb));
 								if g != want || l == g {
 									check_cmp(&mut out, (major, minor), (a, b), a ^ b);
 								}
